@@ -15,29 +15,35 @@ ASSUMPTIONS = [
     "0.05 mm sampling of the true arc, and menu arcs are either >= 2 mm clear or cross a region deeply",
 ]
 
-BASE = [("TRAVEL", "O2"), ("TRAVEL", "I1"), ("TRAVEL", "I2"), ("TRAVEL", "O1"), ("PRINT", "O2"), ("PRINT", "I1"),
-        ("PRINT", "O1"), ("TRAVEL", "Bd"), ("TRAVEL", "Br"), ("TRAVEL", "N"),
-        ("RETRACT",), ("RECOVER",), ("WIPE", "I2"), ("WIPE", "O2"), ("ESET0",),
-        ("ZMOVE", 2), ("ZMOVE", 1), ("TRAVELZ", "I1", 2), ("XONLY", "I1"), ("YONLY", "I1"), ("XONLY", "O2"),
-        ("RAW", "M117 hi"), ("RAW", "M999"),
-        ("AT", "ExcludeRegion", "disable"), ("AT", "ExcludeRegion", "enable")]
-ARCS = [("ARC", "clear"), ("ARC", "cross"), ("ARC", "under"), ("ARC", "into")]
+AT = [("AT", "ExcludeRegion", "disable"), ("AT", "ExcludeRegion", "enable")]
+POINTS_RETRACT = [("TRAVEL", "O1"), ("TRAVEL", "O2"), ("TRAVEL", "I1"), ("TRAVEL", "I2"), ("TRAVEL", "Bd"),
+                  ("TRAVEL", "Br"), ("TRAVEL", "N"), ("PRINT", "I1"), ("PRINT", "O2"), ("PRINT", "O1"),
+                  ("RETRACT",), ("RECOVER",), ("WIPE", "I2"), ("WIPE", "O2"), ("ESET0",)]
+AT_AXIS = [("TRAVEL", "O2"), ("TRAVEL", "I1"), ("XONLY", "I1"), ("YONLY", "I1"), ("XONLY", "O2"), ("PRINT", "I2"),
+           ("ZMOVE", 2), ("ZMOVE", 1), ("RETRACT",), ("RECOVER",)] + AT
+ARC_ADD = [("TRAVEL", "O1"), ("TRAVEL", "O2"), ("TRAVEL", "O3"), ("TRAVEL", "I1"), ("PRINT", "I2"), ("PRINT", "O2"),
+           ("ARC", "clear"), ("ARC", "cross"), ("ARC", "under"), ("ARC", "into"), ("ADD", "R2", "r2"),
+           ("ADD", "R3", "r3"), ("ZMOVE", 2), ("ZMOVE", 1), ("RAW", "M117 hi"), ("RAW", "M999")]
+MODES = [("TRAVEL", "O2"), ("TRAVEL", "I1"), ("TRAVEL", "O1"), ("PRINT", "I2"), ("PRINT", "O2"), ("TRAVEL", "H"),
+         ("RETRACT",), ("RECOVER",), ("REL",), ("ABS",), ("INCH",), ("MM",), ("ZMOVE", 2), ("XONLY", "I1")]
 
 
 def scenarios(tier):
     q = tier == "quick"
-    mon = ("c01",)
-    out = []
-    out.append(Scenario("c01-abs-R", World, dict(prop="C01", monitors=mon, regions=["R"], emax=1),
-                        BASE + ARCS + [("ADD", "R2", "r2")], max_states=60000 if q else 600000))
-    out.append(Scenario("c01-abs-RD-script", World,
-                        dict(prop="C01", monitors=mon, regions=["Rrev", "D"], emax=1, enter="M117 in\n"),
-                        [e for e in BASE if e[0] not in ("ZMOVE", "TRAVELZ", "ESET0")] + ARCS[1:]
-                        + [("ADD", "R2", "r2"), ("ADD", "R3", "r3"), ("TRAVEL", "O3")],
-                        max_states=60000 if q else 600000))
-    out.append(Scenario("c01-modes", World, dict(prop="C01", monitors=mon, regions=["R"], emax=1),
-                        [("TRAVEL", "O2"), ("TRAVEL", "I1"), ("TRAVEL", "O1"), ("PRINT", "I2"), ("PRINT", "O2"),
-                         ("TRAVEL", "H"), ("RETRACT",), ("RECOVER",), ("REL",), ("ABS",), ("INCH",), ("MM",),
-                         ("ZMOVE", 2), ("XONLY", "I1")],
-                        max_depth=6 if q else 8, max_states=2000000))
+    base = dict(prop="C01", monitors=("c01",), key_depth=False, emax=1 if q else 2)
+    cap = 120000 if q else 3000000
+    out = [
+        Scenario("c01-points-retract", World, dict(base, regions=["R"]), POINTS_RETRACT, max_states=cap,
+                 note="closed borders (Bd on the disc border is unused here; Br on the rectangle border), "
+                      "retract/recover/wipe inside and outside"),
+        Scenario("c01-at-axis", World, dict(base, regions=["R", "D"]),
+                 AT_AXIS + ([] if q else [("TRAVELZ", "I1", 2), ("PRINT", "O1"), ("TRAVEL", "Bd")]), max_states=cap,
+                 note="disable/enable at arbitrary points, single-axis and Z-only moves; two overlapping regions"),
+        Scenario("c01-arc-add", World, dict(base, regions=["Rrev", "D"], enter="M117 in\n"), ARC_ADD,
+                 max_states=cap, note="arcs clear of / crossing / ending in a region, regions added while printing "
+                                      "(up to four at once), reversed rectangle corners, enter script"),
+        Scenario("c01-modes", World, dict(base, regions=["R"], emax=1), MODES, max_depth=5 if q else 8,
+                 max_states=cap, note="relative positioning and inch units: depth-bounded (rounding makes states "
+                                      "path-dependent)"),
+    ]
     return out
